@@ -137,6 +137,13 @@ Theorem c16_patch_faithful :
 Proof. exact PatchP.patch_faithful. Qed.
 Print Assumptions c16_patch_faithful.
 
+(** ... and equal documents need no operation: with the idempotence theorems above, submitting
+    the defaulted object again yields an empty patch *)
+Theorem c16_patch_of_equal_documents_is_empty :
+  forall a, Patch.wfb a = true -> Patch.create_patch a a = [].
+Proof. exact PatchP.create_patch_same. Qed.
+Print Assumptions c16_patch_of_equal_documents_is_empty.
+
 (** the text of the paths (RFC 6901 escaping by makePath) reads back as the same tokens, for
     every key *)
 Theorem c16_patch_path_text : forall ks, Patch.parse_path (Patch.render_raw ks) = Some ks.
